@@ -155,15 +155,22 @@ Net(calls) ==   \* entered - left after each call
     LET F[k \in 0..Len(calls)] ==
           IF k = 0 THEN 0 ELSE F[k - 1] + Entered(calls[k]) - Left(calls[k])
     IN F
-CountHistory(calls, k) ==
-    Len(calls[k].after.fluid) = Len(calls[1].before.fluid) + Net(calls)[k]
+\* identities deleted by the calls before call k
+GoneBefore(calls) ==
+    LET F[k \in 1..(Len(calls) + 1)] ==
+          IF k = 1 THEN {}
+          ELSE F[k - 1] \cup (AllIds(calls[k - 1].before) \ AllIds(calls[k - 1].after))
+    IN F
+Hist(calls) == [net |-> Net(calls), goneb |-> GoneBefore(calls)]
+\* |fluid| = initial + entered - left
+CountHistory(calls, h, k) ==
+    Len(calls[k].after.fluid) = Len(calls[1].before.fluid) + h.net[k]
 \* forwards only, and a deleted identity never comes back
-ExactlyOnce(calls, k) ==
+ExactlyOnce(calls, h, k) ==
     LET b == calls[k].before
         a == calls[k].after
     IN /\ \A i \in AllIds(b) \cap AllIds(a) : Rank(a, i) >= Rank(b, i)
-       /\ \A j \in 1..(k - 1) :
-             (AllIds(calls[j].before) \ AllIds(calls[j].after)) \cap AllIds(a) = {}
+       /\ h.goneb[k] \cap AllIds(a) = {}
 \* what the harness does between two calls: advects and renames recycled
 \* inlet originals; it never changes membership, copied values or counts
 LinkOK(a, b) ==
@@ -173,12 +180,16 @@ LinkOK(a, b) ==
     /\ \A r \in Range(a.fluid) : Cnt(b.fluid, r.id) = 1 /\ RowOf(b.fluid, r.id).a = r.a
 Links(calls) == \A k \in 2..Len(calls) : LinkOK(calls[k - 1].after, calls[k].before)
 
-\* the clauses broken at call k of a history, and over the whole history
-HFailedAt(g, calls, k) ==
+\* the clauses broken at call k of a history (h = Hist(calls)), and over the
+\* whole history
+HFailedAtH(g, calls, h, k) ==
     {<<k, n>> : n \in Failed(g, calls[k])}
-    \cup (IF calls[k].ok /\ ~CountHistory(calls, k) THEN {<<k, "CountHistory">>} ELSE {})
-    \cup (IF calls[k].ok /\ ~ExactlyOnce(calls, k) THEN {<<k, "ExactlyOnce">>} ELSE {})
-HFailed(g, calls) == UNION {HFailedAt(g, calls, k) : k \in DOMAIN calls}
+    \cup (IF calls[k].ok /\ ~CountHistory(calls, h, k) THEN {<<k, "CountHistory">>} ELSE {})
+    \cup (IF calls[k].ok /\ ~ExactlyOnce(calls, h, k) THEN {<<k, "ExactlyOnce">>} ELSE {})
+HFailedAt(g, calls, k) == HFailedAtH(g, calls, Hist(calls), k)
+HFailed(g, calls) ==
+    LET h == Hist(calls)
+    IN UNION {HFailedAtH(g, calls, h, k) : k \in DOMAIN calls}
 
 -----------------------------------------------------------------------------
 (* (M) mechanism layer: the update() methods as written *)
